@@ -36,7 +36,7 @@ def _intarr(rng, n, shape=None, neg=True):
 def gen_index(rng, shape):
     """Returns (index, class_name)."""
     r = len(shape)
-    kinds = ["int", "slice", "ellipsis", "newaxis", "intarr", "intarr_rep", "boolmask", "list", "mixed_adv_slice", "two_adv", "adv_bcast", "tuple_ints", "bool_lead", "empty_list", "neg_step", "scalar_arr", "adv_newaxis", "bool_and_slice", "ellipsis_mid", "bool_list", "bool_list_in_tuple", "npbool_list", "nested_bool_list", "one_true_list"]
+    kinds = ["int", "slice", "ellipsis", "newaxis", "intarr", "intarr_rep", "boolmask", "list", "mixed_adv_slice", "two_adv", "adv_bcast", "tuple_ints", "bool_lead", "empty_list", "neg_step", "scalar_arr", "adv_newaxis", "bool_and_slice", "ellipsis_mid", "bool_list", "bool_list_in_tuple", "npbool_list", "nested_bool_list", "one_true_list", "npint", "npint_tuple", "intlist_neg", "intarr_neg_only"]
     if r == 0:
         k = rng.choice(["ellipsis", "newaxis", "empty_tuple", "bool_scalar"])
         if k == "ellipsis":
@@ -80,6 +80,14 @@ def gen_index(rng, shape):
         if not any(m):
             m[0] = True
         return m, k
+    if k == "npint":
+        return onp.int64(_int(rng, n0)), k
+    if k == "npint_tuple":
+        return (onp.int32(_int(rng, n0)),) + tuple(_slice(rng, shape[i]) for i in range(1, r)), k
+    if k == "intlist_neg":
+        return [int(t) for t in rng.integers(-n0, 0, size=3)] + [int(rng.integers(0, n0))], k
+    if k == "intarr_neg_only":
+        return rng.integers(-n0, 0, size=(int(rng.integers(1, 5)),)), k
     if k == "npbool_list":
         m = list(rng.uniform(size=(n0,)) > 0.4)  # elements are numpy.bool_
         if not any(m):
